@@ -26,6 +26,9 @@ use std::{
 
 // ------------------------------------------------------------------ ledger
 
+/// set when a call on a cell did not return: reported once, the rest of the run is skipped (every
+/// further blocked call would cost a watchdog timeout and leak a thread)
+static BLOCKED_SEEN: std::sync::atomic::AtomicBool = std::sync::atomic::AtomicBool::new(false);
 static NEXT_UID: AtomicU64 = AtomicU64::new(1);
 static LEDGER: Mutex<Option<HashMap<u64, u32>>> = Mutex::new(None);
 
@@ -188,7 +191,7 @@ impl Live {
         std::thread::spawn(move || { let r = cell.call(Call::Get, &probe, &None); drop((cell, probe)); let _ = tx.send(r); });
         match rx.recv_timeout(Duration::from_secs(3)) {
             Ok(r) => Some(r),
-            Err(_) => { self.blocked.set(true); rec.oracle_fail(format!("get-blocked {ctx}: get() did not return within 3 s")); None }
+            Err(_) => { self.blocked.set(true); BLOCKED_SEEN.store(true, Ordering::SeqCst); rec.oracle_fail(format!("get-blocked {ctx}: get() did not return within 3 s")); None }
         }
     }
     fn is_init(&self, rec: &mut CaseRec, ctx: &str) -> bool { matches!(self.get_guarded(rec, ctx), Some(Res::Ref(..))) }
@@ -235,7 +238,7 @@ impl Live {
 }
 
 /// Runs every call list on its own thread, all released together; `None` if a thread has not
-/// finished after 10 s (the threads are then abandoned).
+/// finished after 5 s (the threads are then abandoned).
 fn run_threads(lv: &Live, ths: &[Vec<Call>], stagger: usize, gate: Gate) -> Option<Vec<Vec<(Call, Res)>>> {
     let k = ths.len();
     let bar = Arc::new(Barrier::new(k));
@@ -251,7 +254,7 @@ fn run_threads(lv: &Live, ths: &[Vec<Call>], stagger: usize, gate: Gate) -> Opti
         });
     }
     let mut got = vec![];
-    while got.len() < k { match rx.recv_timeout(Duration::from_secs(10)) { Ok(x) => got.push(x), Err(_) => return None } }
+    while got.len() < k { match rx.recv_timeout(Duration::from_secs(5)) { Ok(x) => got.push(x), Err(_) => return None } }
     got.sort_by_key(|x| x.0);
     Some(got.into_iter().map(|x| x.1).collect())
 }
@@ -371,8 +374,10 @@ impl Engine for CellEngine {
 
     fn exec_case(&mut self, lines: &[String], rec: &mut CaseRec) {
         std::panic::set_hook(Box::new(|_| {})); // initialiser / destructor panics are part of the cases
+        if BLOCKED_SEEN.load(Ordering::SeqCst) { rec.stat("skipped-after-blocked-call"); return; }
         let mut live: Option<Live> = None;
         for line in lines {
+            if BLOCKED_SEEN.load(Ordering::SeqCst) { break; } // reported; every further cell would cost another watchdog timeout
             let w: Vec<&str> = line.split_whitespace().collect();
             match w[0] {
                 "cell.new" => {
@@ -462,7 +467,8 @@ impl Engine for CellEngine {
                         let lv = Live::new(kind, c);
                         let ctx = format!("{} cell, {k} free-running threads `{line}`", kind.name());
                         let Some(results) = run_threads(&lv, &ths, rep, None) else {
-                            rec.oracle_fail(format!("call-blocked {ctx}: a thread did not return within 10 s"));
+                            rec.oracle_fail(format!("call-blocked {ctx}: a thread did not return within 5 s"));
+                            BLOCKED_SEEN.store(true, Ordering::SeqCst);
                             break;
                         };
                         conc_oracle(rec, &lv, &results, &ctx);
@@ -514,12 +520,13 @@ impl Engine for CellEngine {
                     let _ = rtx.send(());
                     let mut got: Vec<(usize, Vec<(Call, Res)>)> = vec![(0, main_res)];
                     while got.len() < 2 + bs.len() {
-                        match resrx.recv_timeout(Duration::from_secs(10)) { Ok(x) => got.push(x), Err(_) => break }
+                        match resrx.recv_timeout(Duration::from_secs(5)) { Ok(x) => got.push(x), Err(_) => break }
                     }
                     rec.nontrivial = true;
                     rec.stat(format!("overlap/{}/{}", kind.name(), call_str(a).chars().next().unwrap()));
                     if got.len() < 2 + bs.len() || lv.blocked.get() {
-                        if !lv.blocked.get() { rec.oracle_fail(format!("call-blocked {ctx}: a thread did not return within 10 s after the held initialiser was released")); }
+                        if !lv.blocked.get() { rec.oracle_fail(format!("call-blocked {ctx}: a thread did not return within 5 s after the held initialiser was released")); }
+                        BLOCKED_SEEN.store(true, Ordering::SeqCst);
                         continue;
                     }
                     got.sort_by_key(|x| x.0);
